@@ -344,7 +344,25 @@ def arr_binop(I, o, a, b):
             q = z3.Int("q!op")
             x = z3.Select(a.arr, q)
             I.ctx.trusted.add("integer array +/- Python integer: element-wise in the array's dtype (two's complement wrap), a new array")
-            return SymArr(a.name + "_op", a.ctype, a.shape, arr=z3.Lambda([q], _wrap_to(a.ctype, x + sc if o == "+" else x - sc)))
+            val = x + sc if o == "+" else x - sc
+            eb = getattr(a, "elem_bounds", None)
+            nb = None
+            if eb is not None:
+                nb = (eb[0] + sc, eb[1] + sc) if o == "+" else (eb[0] - sc, eb[1] - sc)
+                if I.ctx.feasible(z3.Or(zint(nb[0]) < lo, zint(nb[1]) > hi)):
+                    nb = None
+            r = SymArr(a.name + "_op", a.ctype, a.shape, arr=z3.Lambda([q], val if nb is not None else _wrap_to(a.ctype, val)))
+            if nb is not None:       # the elements are known to stay inside the dtype: no wrap
+                r.elem_bounds = nb
+            return r
+    if o in ("|", "&") and isinstance(a, SymArr) and isinstance(b, SymArr) and getattr(a, "pred", None) and getattr(b, "pred", None):
+        # boolean arrays: element-wise or / and
+        n = zint(a.shape[0])
+        if I.ctx.branch(n != zint(b.shape[0])):
+            I.throw("ValueError", "operands could not be broadcast together")
+        pa, pb = a.pred, b.pred
+        return _pred_array(a.name + "_" + ("or" if o == "|" else "and"), a.shape[0],
+                           (lambda q: z3.Or(pa(q), pb(q))) if o == "|" else (lambda q: z3.And(pa(q), pb(q))))
     raise Unsupported("array operator " + o)
 
 
@@ -353,6 +371,8 @@ def arr_compare(I, o, a, b):
     element q is the (exact, mathematical) comparison of element q -- NumPy >= 2 compares integer arrays
     with Python integers exactly, also when the scalar lies outside the array's dtype"""
     flip = {"<": ">", "<=": ">=", ">": "<", ">=": "<=", "==": "==", "!=": "!="}
+    if isinstance(a, SymArr) and isinstance(b, SymArr):
+        return _arr_compare_arrays(I, o, a, b)
     if not isinstance(a, SymArr):
         a, b, o = b, a, flip[o]
     if isinstance(b, SymArr) or len(a.shape) != 1 or (a.ctype and is_float_ctype(a.ctype)) or o not in flip:
@@ -371,6 +391,32 @@ def arr_compare(I, o, a, b):
     r.pred = pred
     I.ctx.trusted.add("NumPy compares an integer array with a Python integer exactly (element-wise, mathematical order)")
     return r
+
+
+def _pred_array(name, n, pred):
+    q = z3.Int("q!cmp")
+    r = SymArr(name, "bool", [n], arr=z3.Lambda([q], z3.If(pred(q), 1, 0)), readonly=True)
+    r.pred = pred
+    return r
+
+
+def _arr_compare_arrays(I, o, a, b):
+    """element-wise comparison of two 1-d arrays of the same length and kind (integers; or strings, which the model
+    holds as integer codes and compares for (in)equality only): a boolean array that carries its predicate"""
+    if len(a.shape) != 1 or len(b.shape) != 1 or any(x.ctype and is_float_ctype(x.ctype) for x in (a, b)):
+        raise Unsupported("array comparison of these operands")
+    if (a.ctype is None or b.ctype is None) and (o not in ("==", "!=") or a.ctype != b.ctype):
+        raise Unsupported("ordering comparison of string arrays")
+    n = zint(a.shape[0])
+    if I.ctx.branch(n != zint(b.shape[0])):
+        I.throw("ValueError", "operands could not be broadcast together")
+    A, B = a.arr, b.arr
+
+    def pred(q):
+        x, y = z3.Select(A, q), z3.Select(B, q)
+        return {"<": x < y, "<=": x <= y, ">": x > y, ">=": x >= y, "==": x == y, "!=": x != y}[o]
+    I.ctx.trusted.add("NumPy compares two 1-d arrays of equal length element-wise (integers exactly; strings for equality)")
+    return _pred_array(a.name + "_cmp", a.shape[0], pred)
 
 
 def _reduce_extreme(I, arr, which):
@@ -629,12 +675,23 @@ def make_module(I):
         w = SymArr(I_.ctx.fresh_name("where"), "int64", [m], readonly=True)
         q = z3.Int("q!where")
         at = z3.Select(w.arr, q)
+        w.elem_bounds = (z3.IntVal(0), n - 1)
         I_.ctx.assume(z3.And(m >= 0, m <= n))
         I_.ctx.assume((m > 0) == z3.Exists([q], z3.And(q >= 0, q < n, x.pred(q))))
         I_.ctx.assume(z3.ForAll([q], z3.Implies(z3.And(q >= 0, q < m), z3.And(at >= 0, at < n, x.pred(at)))))
         I_.ctx.assume(z3.ForAll([q], z3.Implies(z3.And(q >= 0, q < m - 1), at < z3.Select(w.arr, q + 1))))
         I_.ctx.assume(z3.Implies(m > 0, z3.ForAll([q], z3.Implies(z3.And(q >= 0, q < z3.Select(w.arr, 0)), z3.Not(x.pred(q))))))
-        I_.ctx.trusted.add("np.where(condition): a 1-tuple with the ascending positions at which the condition holds (none iff it holds nowhere; the first is the least)")
+        # ascending, pairwise; no position at which the condition holds lies between two listed neighbours or
+        # after the last one (redundant with the rank function below, but in the form proofs need)
+        q2 = z3.Int("q2!where")
+        I_.ctx.assume(z3.ForAll([q, q2], z3.Implies(z3.And(q >= 0, q < q2, q2 < m), at < z3.Select(w.arr, q2))))
+        I_.ctx.assume(z3.ForAll([q, q2], z3.Implies(z3.And(q >= 0, q < m - 1, at < q2, q2 < z3.Select(w.arr, q + 1)), z3.Not(x.pred(q2)))))
+        I_.ctx.assume(z3.Implies(m > 0, z3.ForAll([q2], z3.Implies(z3.And(z3.Select(w.arr, m - 1) < q2, q2 < n), z3.Not(x.pred(q2))))))
+        # every position at which the condition holds is listed (its rank among them is a ghost function)
+        rank = z3.Function(I_.ctx.fresh_name("where_rank"), z3.IntSort(), z3.IntSort())
+        I_.ctx.assume(z3.ForAll([q], z3.Implies(z3.And(q >= 0, q < n, x.pred(q)),
+                                               z3.And(rank(q) >= 0, rank(q) < m, z3.Select(w.arr, rank(q)) == q))))
+        I_.ctx.trusted.add("np.where(condition): a 1-tuple with the ascending positions at which the condition holds (all of them; none iff it holds nowhere; the first is the least)")
         return (w,)
     ns["where"] = Native("np.where", _where)
     ns["nonzero"] = ns["where"]
@@ -662,4 +719,73 @@ def make_module(I):
         I_.ctx.trusted.add("np.searchsorted(a, v, side): for ascending a, position p[q] in [0, len(a)] with a[j] <= v[q] (side='right'; < for 'left') exactly for j < p[q]")
         return r
     ns["searchsorted"] = Native("np.searchsorted", _searchsorted)
+
+    def _diff(I_, a, k):
+        x = a[0]
+        if len(a) != 1 or k or not (isinstance(x, SymArr) and len(x.shape) == 1 and x.ctype and is_int_ctype(x.ctype)):
+            raise Unsupported("np.diff of these operands")
+        n = zint(x.shape[0])
+        q = z3.Int("q!diff")
+        I_.ctx.trusted.add("np.diff of a 1-d integer array: a[q + 1] - a[q] in the array's dtype (wraps), one element fewer")
+        d = z3.Select(x.arr, q + 1) - z3.Select(x.arr, q)
+        eb = getattr(x, "elem_bounds", None)
+        lo, hi = int_range(x.ctype)
+        fits = eb is not None and not I_.ctx.feasible(z3.Or(zint(eb[0]) - zint(eb[1]) < lo, zint(eb[1]) - zint(eb[0]) > hi))
+        return SymArr(x.name + "_diff", x.ctype, [simp(z3.If(n > 0, n - 1, 0))], arr=z3.Lambda([q], d if fits else _wrap_to(x.ctype, d)))
+    ns["diff"] = Native("np.diff", _diff)
+
+    def _concatenate(I_, a, k):
+        parts = a[0].items if isinstance(a[0], PList) else a[0]
+        if len(a) != 1 or k or not isinstance(parts, (tuple, list)):
+            raise Unsupported("np.concatenate of these operands")
+        # 1-d integer pieces: Python lists of integers and integer arrays, one after the other
+        pieces, total = [], z3.IntVal(0)
+        for part in parts:
+            if isinstance(part, PList):
+                vals = [I_.unC(v) for v in part.items]
+                if any(isinstance(v, bool) or not isinstance(v, (int, z3.ArithRef)) for v in vals):
+                    raise Unsupported("np.concatenate of a list of non-integers")
+                pieces.append(("list", [zint(v) for v in vals], len(vals)))
+                total = total + len(vals)
+            elif isinstance(part, SymArr) and len(part.shape) == 1 and part.ctype and is_int_ctype(part.ctype):
+                pieces.append(("arr", part, zint(part.shape[0])))
+                total = total + zint(part.shape[0])
+            else:
+                raise Unsupported("np.concatenate of this piece")
+        q = z3.Int("q!cat")
+        body, off = z3.IntVal(0), z3.IntVal(0)
+        clauses = []
+        for kind, val, ln in pieces:
+            if kind == "list":
+                for j, v in enumerate(val):
+                    clauses.append((q == off + j, v))
+                off = off + ln
+            else:
+                clauses.append((z3.And(q >= off, q < off + ln), z3.Select(val.arr, q - off)))
+                off = off + ln
+        for cond, v in reversed(clauses):
+            body = z3.If(cond, v, body)
+        I_.ctx.trusted.add("np.concatenate of 1-d integer lists / arrays: the pieces one after the other (int64 result)")
+        return SymArr(I_.ctx.fresh_name("concat"), "int64", [simp(total)], arr=z3.Lambda([q], body))
+    ns["concatenate"] = Native("np.concatenate", _concatenate)
+
+    def _logical(o):
+        def two(I_, a, k):
+            if len(a) != 2 or k:
+                raise Unsupported("np.logical_* with these arguments")
+            return arr_binop(I_, o, a[0], a[1])
+
+        def reduce(I_, a, k):
+            parts = a[0].items if isinstance(a[0], PList) else a[0]
+            if len(a) != 1 or k or not isinstance(parts, (tuple, list)) or not parts:
+                raise Unsupported("np.logical_*.reduce of these operands")
+            r = parts[0]
+            for x in parts[1:]:
+                r = arr_binop(I_, o, r, x)
+            return r
+        f = Native("np.logical_" + ("or" if o == "|" else "and"), two)
+        f.attrs = {"reduce": Native("np.logical_" + ("or" if o == "|" else "and") + ".reduce", reduce)}
+        return f
+    ns["logical_or"] = _logical("|")
+    ns["logical_and"] = _logical("&")
     return Module("numpy", ns)
